@@ -227,6 +227,10 @@ class ScriptedTime:
         return getattr(_real_time, name)
 
 
+class _Runaway(Exception):
+    pass
+
+
 class FakeDet:
     parent = None
 
@@ -286,6 +290,8 @@ def run_impl(case):
     def factory(*_a):
         i = calls[0]
         calls[0] += 1
+        if i > 200:  # no legitimate case gets near this: the generator spins without yielding
+            raise _Runaway()
         log.append(["call", i])
         n = counts[i] if i < len(counts) else 0
         msgs = [Msg("marker", None, i, j) for j in range(n)]
@@ -340,6 +346,8 @@ def run_impl(case):
         except StopIteration as e:
             outcome = "returned"
             ret = e.value
+        except _Runaway:
+            outcome = "runaway"
         except ValueError:
             outcome = "ValueError"
         except Exception as e:  # noqa: BLE001
